@@ -248,12 +248,12 @@ def run(ctx):
             door_flags(ctx)
         product(ctx)
         for state, cat, rng in dyndrive.random_function_sweep(
-                ctx, 'C10sweep', ctx.pick(60, 600),
+                ctx, 'C10sweep', ctx.pick(60, 4000),
                 types=[Floor, Wall, Door, Key, Box, Exit]):
             pass
         ctx.sample('sweep_state', {'state': enc.render(state), 'category': cat})
         keydoor_graphs(ctx, sink)
-        histories(ctx, sink, ctx.pick(2, 12), ctx.pick(150, 500))
+        histories(ctx, sink, ctx.pick(2, 30), ctx.pick(150, 600))
 
 
 def replay(ctx, kind, payload):
